@@ -626,7 +626,8 @@ static bool decodeAttributeMap(std::map<CK_ATTRIBUTE_TYPE,OSAttribute>& map, con
 					goto overrun;
 				}
 				value.resize(len);
-				memcpy(&value[0], binary + pos, len);
+				if (len > 0)
+					memcpy(&value[0], binary + pos, len);
 				pos += len;
 
 				map.insert(std::pair<CK_ATTRIBUTE_TYPE,OSAttribute> (attrType, value));
